@@ -12,7 +12,7 @@
     minimiser" - Nelder-Mead has no convergence theorem and Brent's is a real-analysis result for exactly
     unimodal objectives; also termination (the bracketing loop has no cap; ITMAX/NMAX exits are [Exit]). *)
 From Coq Require Import ZArith List Reals.
-From LP Require Import Num NumR OrdLaws C11_Model C11_Proofs.
+From LP Require Import Num NumR OrdLaws C11_Model C11_Proofs C11_Proofs_Hist.
 Import ListNotations.
 
 Section Abstract.
@@ -97,6 +97,28 @@ Theorem C11_simplex_of_spec start deltas : length deltas = length start ->
               if Nat.eqb j i then nadd Ops (nth j start (n0 Ops)) (nth j deltas (n0 Ops)) else nth j start (n0 Ops).
 Proof. exact (simplex_of_spec Ops start deltas). Qed.
 End Abstract.
+
+(** call history: "Minimization::minimize (all three overloads) return ..." holds for every call on an object, not only the
+    first: the answer (returned point, fmin, y, simplex, nfunc and the points evaluated) of a call on an object in ANY state
+    is the answer of the same call on a fresh object, and a run of calls on one object gives, call by call, the answers of
+    fresh objects (so C11_minimize_general_spec applies to each of them).  No order law is needed. *)
+Theorem C11_minimize_history_independent {T : Type} (Ops : NumOps T) (ob : nmobj) (ftol : T) (c : nmcall) :
+  rmap snd (obj_call Ops ob ftol c) = fresh_call Ops ftol c.
+Proof. exact (obj_call_fresh Ops ob ftol c). Qed.
+
+Theorem C11_minimize_run_history_independent {T : Type} (Ops : NumOps T) (cs : list nmcall) (ob : nmobj) (ftol : T) :
+  obj_run Ops ob ftol cs = fresh_run Ops ftol cs.
+Proof. exact (obj_run_fresh Ops cs ob ftol). Qed.
+
+(** after a call that returns, the public members of the object are what the call reported *)
+Theorem C11_minimize_object_state {T : Type} (Ops : NumOps T) (f : list T -> T) ob ftol pp ob' o :
+  obj_minimize_general Ops f ob ftol pp = Ok (ob', o) ->
+  ob_nfunc ob' = o_nfunc o /\ ob_fmin ob' = o_fmin o /\ ob_y ob' = o_y o /\ ob_simplex ob' = o_simplex o /\
+  ob_mpts ob' = length pp /\ ob_ndim ob' = length (nth 0 pp []).
+Proof. exact (obj_minimize_general_state Ops f ob ftol pp ob' o). Qed.
+Print Assumptions C11_minimize_history_independent.
+Print Assumptions C11_minimize_run_history_independent.
+Print Assumptions C11_minimize_object_state.
 Print Assumptions C11_bracket_post.
 Print Assumptions C11_brent_step_descent.
 Print Assumptions C11_brent_descent.
